@@ -56,6 +56,11 @@ pub enum Fate {
 
 pub trait Policy: Send {
     fn fate(&mut self, d: &Dgram) -> Fate;
+    /// How long the sender's `send_to` call itself takes before it returns (a slow socket keeps
+    /// the caller -- e.g. a node's event loop -- busy). Only applied to real nodes' sockets.
+    fn send_block(&mut self, _d: &Dgram) -> Duration {
+        Duration::ZERO
+    }
 }
 
 /// Everything is delivered immediately.
@@ -170,6 +175,13 @@ impl SimNet {
         self.inner.lock().unwrap().oversize.clone()
     }
 
+    fn send_block(&self, from: SocketAddr, to: SocketAddr, data: &[u8]) -> Duration {
+        let mut g = self.inner.lock().unwrap();
+        let now = tokio::time::Instant::now() - g.t0;
+        let seq = g.pair_seq.get(&(from, to)).copied().unwrap_or(0);
+        g.policy.send_block(&Dgram { from, to, seq, bytes: data, now })
+    }
+
     fn deliver(&self, dgram: u64, from: SocketAddr, to: SocketAddr, bytes: Arc<Vec<u8>>) {
         let mut g = self.inner.lock().unwrap();
         let t = tokio::time::Instant::now() - g.t0;
@@ -255,6 +267,10 @@ pub struct SimSocket {
 #[async_trait]
 impl SocketTrait for SimSocket {
     async fn send_to(&self, buf: &[u8], target: &SocketAddr) -> io::Result<()> {
+        let block = self.net.send_block(self.addr, *target, buf);
+        if !block.is_zero() {
+            tokio::time::sleep(block).await;
+        }
         self.net.send(self.addr, *target, buf)
     }
 
@@ -390,4 +406,38 @@ impl Policy for RttBudget {
         }
         Fate::Deliver(vec![Duration::from_millis(delay)])
     }
+}
+
+/// Wraps a policy: `send_to` calls of `node` towards the addresses in `to` take `ms` milliseconds
+/// (the node's event loop is busy meanwhile).
+pub struct SlowSends<P: Policy> {
+    pub inner: P,
+    pub node: SocketAddr,
+    pub to: Vec<SocketAddr>,
+    pub ms: u64,
+}
+
+impl<P: Policy> Policy for SlowSends<P> {
+    fn fate(&mut self, d: &Dgram) -> Fate {
+        self.inner.fate(d)
+    }
+    fn send_block(&mut self, d: &Dgram) -> Duration {
+        if d.from == self.node && self.to.contains(&d.to) {
+            Duration::from_millis(self.ms)
+        } else {
+            Duration::ZERO
+        }
+    }
+}
+
+/// A stranger that pings `node` every `period_ms` (from `start_ms` on, `count` times).
+pub fn spawn_pinger(net: &SimNet, from: SocketAddr, node: SocketAddr, start_ms: u64, period_ms: u64, count: u32) {
+    let net = net.clone();
+    tokio::spawn(async move {
+        for k in 0..count {
+            net.sleep_until(Duration::from_millis(start_ms + k as u64 * period_ms)).await;
+            let m = crate::bcodec::KMsg { tid: vec![b'P', (k >> 8) as u8, k as u8], body: crate::bcodec::KBody::Query(crate::bcodec::KQuery::Ping { id: vec![0xEE; 20] }) };
+            let _ = net.send(from, node, &m.encode());
+        }
+    });
 }
